@@ -15,7 +15,7 @@ package plugin
 //@ pred dialable(a) := a != nil && (typeis(a, "*net.TCPAddr") ==> unbox(a, "*net.TCPAddr") != nil) && (typeis(a, "*net.UnixAddr") ==> unbox(a, "*net.UnixAddr") != nil)
 //@ pred valid_client(c) := c.config != nil && c.logger != nil && c.config.Stderr != nil && c.config.SyncStdout != nil && c.config.SyncStderr != nil && c.config.AllowedProtocols != nil
 //@ pred valid_reattach(c) := c.config.Reattach != nil ==> dialable(c.config.Reattach.Addr)
-//@ pred inv_client(c) := (c.address != nil ==> dialable(c.address)) && launched[c] >= 0 && launched[c] <= 1 && (launched[c] == 1 && c.config.Cmd != nil ==> c.config.Cmd.Stdout != nil) && (c.client != nil ==> c.address != nil && (c.protocol == "netrpc" || c.protocol == "grpc")) && (c.address != nil ==> c.doneCtx != nil)
+//@ pred inv_client(c) := (c.address != nil ==> dialable(c.address)) && launched[c] >= 0 && launched[c] <= 1 && (launched[c] == 1 && c.config.Cmd != nil ==> c.config.Cmd.Stdout != nil) && (c.client != nil ==> c.address != nil && (c.protocol == "netrpc" || c.protocol == "grpc")) && (c.address != nil ==> c.doneCtx != nil) && (typeis(c.client, "*RPCClient") ==> unbox(c.client, "*RPCClient") != nil) && (typeis(c.client, "*GRPCClient") ==> unbox(c.client, "*GRPCClient") != nil)
 
 //@ type Client
 //@   guarded_by l: exited, runner, client, processKilled, address, ghost:launched   [C20.guard] [C19.once]
@@ -122,7 +122,7 @@ package plugin
 //@   at call cmdrunner.NewCmdRunner#1 assert c.config.SkipHostEnv && cmd0 != nil ==> (forall k: Str :: eff_has(seq(cmd.Env), k) ==> eff_has(env0, k) || is_control(k) || k == c.config.MagicCookieKey)   [C17.skip]
 //@   local scanning: Bool := false
 //@   at go#3 set scanning := true
-//@   ensures scanning ==> drain_spawned == old(drain_spawned) + 1   [C10.drained] [C03.c]
+//@   ensures scanning ==> drain_spawned == old(drain_spawned) + 1   [C10.drained] [C03.c] [C04.bounded]
 //@   ensures !scanning ==> drain_spawned == old(drain_spawned)   [C10.drained]
 //@   at call strings.Join#1 assert forall v: Int :: (v in c.config.VersionedPlugins) <==> (old(v in c.config.VersionedPlugins) || (v == version && c.config.Plugins != nil))   [C02.offer]
 //@   at call strings.Join#1 assert forall v: Int :: old(v in c.config.VersionedPlugins) ==> c.config.VersionedPlugins[v] == old(c.config.VersionedPlugins[v])   [C02.offer]
@@ -191,6 +191,7 @@ package plugin
 //@   ensures !held(c.l)
 
 //@ func NewRPCClient
+//@   at call yamux.Client#1 assert arg0 == conn && arg1 == nil   [C03.c] [C04.bounded]
 //@   nopanic [C03.d]
 //@   bounded peer-dead [C03.c]
 //@   requires conn != nil
@@ -786,6 +787,8 @@ package plugin
 //@   inv this.clientStreams != nil && this.serverStreams != nil   [C07.file]
 //@   inv forall k :: k in this.clientStreams ==> gpending_ok(this.clientStreams[k], k)   [C07.file]
 //@   inv forall k :: k in this.serverStreams ==> gpending_ok(this.serverStreams[k], k)   [C08.run]
+//@   rely Mutex: forall k :: old(k in this.clientStreams) && (k in this.clientStreams) ==> this.clientStreams[k] == old(this.clientStreams[k])   [C07.file]
+//@   rely Mutex: forall k :: old(k in this.serverStreams) && (k in this.serverStreams) ==> this.serverStreams[k] == old(this.serverStreams[k])   [C08.run]
 //@   immutable streamer, tls, doneCh, clientStreams, serverStreams, addrTranslator, muxer   [C20.guard]
 //@   atomic_only nextId   [C20.guard]
 //@   noblock Mutex   [C09.nolock]
@@ -930,7 +933,7 @@ package plugin
 //@   after call (*GRPCBroker).knock#1 set knocked := ret == nil
 //@   at call (grpcmux.GRPCMuxer).Dial#1 assert knocked && held(b.dialMutex)   [C08.dial]
 //@   at call (*GRPCBroker).knock#1 assert arg0 == id && held(b.dialMutex)   [C08.dial]
-//@   ensures !held(b.dialMutex)   [C08.dial]
+//@   ensures !held(b.dialMutex)   [C08.dial] [C03.c] [C09.balance]
 
 //@ func dialGRPCConn
 //@   nopanic [C12.total] [C03.d]
@@ -1355,6 +1358,7 @@ package plugin
 //@   ensures result0 != nil && result1 == nil
 
 //@ func (*RPCServer).ServeConn
+//@   at call yamux.Server#1 assert arg0 == conn && arg1 == nil   [C03.c]
 //@   nopanic [nospawn]
 //@   bounded peer-dead
 //@   requires conn != nil
